@@ -55,6 +55,8 @@ Inductive msg :=
 
 Inductive cmd :=
 | CCreatePub | CCreateSub
+| CCreateSubRemote         (* create-subscriber with remoteUrl + remoteToken (token accepted, subject = publisher id):
+                              NewRemotePublisher, then NewRemoteSubscriber; see "remote subscribers" at the end *)
 | CDeletePub (id : N) | CDeleteSub (id : N)
 | CStreams (id : N)        (* get-publisher-streams *)
 | COther.                  (* a command type the proxy does not know *)
@@ -265,6 +267,7 @@ Definition command (st : state) (c sid : N) (k : cmd) : state * outcome :=
   match k with
   | CCreatePub => create st c sid Pub
   | CCreateSub => create st c sid Sub
+  | CCreateSubRemote => create st c sid Sub    (* one pending creation for both calls at the media server *)
   | CDeletePub id => delete st c sid Pub id
   | CDeleteSub id => delete st c sid Sub id
   | CStreams id =>
@@ -520,3 +523,62 @@ Definition step (st : state) (o : op) : state * outcome :=
   end.
 
 End Oracles.
+
+(* ---- remote subscribers (create-subscriber with remoteUrl + remoteToken) -------
+   processCommand first asks the media server for the remote publisher of the
+   stream (NewRemotePublisher: reference-counted, the creator holds one reference),
+   then attaches the subscriber to it (NewRemoteSubscriber: the subscriber takes
+   its own reference and gives it back, once, when it is closed), and gives the
+   creator's reference back on every way out of the handler (a `defer`).  The
+   remote publisher is closed at the media server when its count reaches 0; it is
+   in no table of the session - the only thing that keeps it open, and the only
+   thing whose Close closes it, is its subscriber.
+
+   In `step` a remote create-subscriber is the same operation as a local one
+   (OCmd c CCreateSub; one completion OMcuDone tok r for the whole continuation,
+   r = MFail / MTimeout for a failure of either call): below are the reference
+   operations the continuation performs for each outcome, and the proofs
+   (Proxy_proofs.v, lemmas remote_refs_handler etc.) that afterwards the remote publisher is open
+   exactly when its subscriber is, holding exactly the subscriber's reference.
+   That is what lets one entry (tok, Sub, sid) of `mopen` stand for the pair; the
+   harness lists a remote publisher that is still referenced under its creation
+   request tok, so it shows on its own exactly when it is open without its
+   subscriber.                                                                   *)
+Inductive rres := RROk | RRPubFail | RRPubTimeout | RRSubFail | RRSubTimeout.
+Definition rres_mres (r : rres) : mres :=
+  match r with
+  | RROk => MOk
+  | RRPubFail | RRSubFail => MFail
+  | RRPubTimeout | RRSubTimeout => MTimeout
+  end.
+
+Inductive refop :=
+| RNew        (* NewRemotePublisher succeeded: the publisher exists, count 1 *)
+| RAttach     (* NewRemoteSubscriber succeeded: the subscriber's reference *)
+| RRelease.   (* Close of the remote publisher: one reference back, closed at 0 *)
+
+(* None: no remote publisher open at the media server; Some n: open, n references *)
+Definition apply_ref (n : option N) (o : refop) : option N :=
+  match o, n with
+  | RNew, None => Some 1
+  | RAttach, Some k => Some (k + 1)
+  | RRelease, Some k => if N.eqb k 1 then None else Some (k - 1)
+  | _, _ => n
+  end.
+Definition refs_after (l : list refop) : option N := fold_left apply_ref l None.
+
+(* the continuation of the handler.  release_always = true: the code (the
+   creator's reference goes back on every exit after NewRemotePublisher
+   succeeded); false: only after NewRemoteSubscriber succeeded as well *)
+Definition handler_refops (release_always : bool) (r : rres) : list refop :=
+  match r with
+  | RRPubFail | RRPubTimeout => []
+  | RRSubFail | RRSubTimeout => RNew :: (if release_always then [RRelease] else [])
+  | RROk => [RNew; RAttach; RRelease]
+  end.
+
+(* the Close of the subscriber (delete-subscriber, clearSubscribers at the end of
+   the session or when the media server is lost, or at once when the session was
+   found closed after storing): exists only when the request succeeded *)
+Definition sub_close_refops (r : rres) : list refop :=
+  match r with RROk => [RRelease] | _ => [] end.
